@@ -126,7 +126,7 @@ pub fn c04() -> Check {
     Check::new(
         "C04",
         "exploration",
-        "accept half: C01 histories (manifest rollover ratios 1, 2, 8 so fragments appear; more verifier passes) and after every operation an independent re-implementation parses every manifest fragment and checks: each transaction has input == previous output and input == output + discard, discard == sum(removed) - sum(added), each fragment starts with the roll-up of its predecessor, the final output equals the sum of the listed digests, and each listed sst's file name, stored setsum and setsum recomputed from a full walk agree; every verifier pass must return Ok or back off. reject half: on a finished store one self-consistent tamper is applied (one entry of one compaction output dropped / duplicated at a new timestamp / modified and the file renamed to its new setsum with the manifest line patched, or one hex digit of one recorded digest changed, CRCs fixed up) and some verifier (ManifestVerifier or LsmVerifier) that processes the fragment must report corruption. Non-trivial: >= 1 merge, >= 1 GC with non-zero discard, >= 1 rolled fragment; distinct by structural hash.",
+        "accept half: C01 histories (manifest rollover ratios 1, 2, 8 so fragments appear; more verifier passes) and after every operation an independent re-implementation parses every manifest fragment and checks: each transaction has input == previous output and input == output + discard, discard == sum(removed) - sum(added), each fragment starts with the roll-up of its predecessor, the final output equals the sum of the listed digests, and each listed sst's file name, stored setsum and setsum recomputed from a full walk agree; every verifier pass must return Ok or back off. reject half: on a finished store (no verifier pass during the history, so every fragment is still there) one hex digit of one recorded digest (an added or removed sst, or the I / O / D field of a transaction other than a fragment's leading roll-up) is changed and the line's CRC fixed up; ManifestVerifier::verify of that fragment must fail, and when the fragment is one the offline verifier processes, LsmVerifier::verify on a copy of the directory must fail too (both must accept the untampered history first). Non-trivial: >= 1 merge, >= 1 GC with non-zero discard, >= 1 rolled fragment; distinct by structural hash.",
     )
     .assume("raw byte damage (CRC failures) belongs to C09; tampers here are the self-consistent output of a hypothetical buggy compaction")
     .assume("as C01: single-threaded step driving, R-D / R-R exclusions")
@@ -140,6 +140,7 @@ pub fn c04() -> Check {
         thorough: (2500, 400, 250),
         nontrivial: |s| s.merges >= 1 && s.gcs >= 1 && s.rolled_fragments >= 1,
     })
+    .pbt(crate::tamper::TamperDigits)
 }
 
 pub fn c08() -> Check {
